@@ -11,13 +11,13 @@ CHECKS = {
    text="For every parseable candidate obtainable from the canonical templates and from a non-canonical corpus (number literals in non-canonical spelling, stray semicolons, unsorted import groups, redundant parentheses) by <=1 insertion from an 11-letter alphabet under 6 whole-file transforms (CRLF, BOM, spaces, no indentation...), a line directive with every line number, <=2 insertions from a 3-letter alphabet, and every hanging-indent comment vector, the printed output parses, has gofmt's token stream (or the input's where gofmt itself changes the statement structure) and the input's comments in gofmt's order (whitespace aside), and does not depend on where the file sits in the restorer's FileSet.",
    note="go/scanner defines the token stream; comment texts are compared with whitespace removed; five narrowly signed known findings (gofmt output that does not re-parse; directive placement; non-empty blank lines; comment before a spec of a re-sorted import group)", ref="DESIGN.md §4 C03"),
  "C05": dict(level="model_checking", tech="exhaustive enumeration of spacing/decoration vectors on hand-built trees against a line-break ledger model, both sides through gofmt",
-   text="For 17 list kinds (statements, declarations, specs, import specs, fields, methods, clauses, arguments, elements, raw-string elements, path-carrying identifiers under import management, statement lists containing bare blocks in function, case and comm clause bodies) and 3 elements, all 729 Before/After assignments crossed with all Start/End decoration assignments (<=2 non-empty quick, <=3 thorough) print with the line structure of the text the non-additive rule denotes, wherever the file sits in the FileSet.",
+   text="For 19 list kinds (statements, declarations, specs, import specs, fields, methods, function parameters and type parameters, clauses, arguments, elements, raw-string elements, path-carrying identifiers under import management, statement lists containing bare blocks in function, case and comm clause bodies) and 3 elements, all 729 Before/After assignments crossed with all Start/End decoration assignments (<=2 non-empty quick, <=3 thorough) print with the line structure of the text the non-additive rule denotes, wherever the file sits in the FileSet.",
    note="indentation is not compared here (C01/C02 do); go/format normalises both sides", ref="DESIGN.md §4 C05"),
  "C06": dict(level="model_checking", tech="exhaustive enumeration of node instances and (node, slot) pairs with reflection-based completeness/aliasing/mutation oracles",
    text="Every node instance of the corpus (plain and with every decoration point filled, in use or not) and a decorated Package node is cloned and compared field by field, checked for storage disjointness and mutation independence and for identical printing when substituted (also under import management, also for files whose File.Imports has drifted from Decls); every class of (node, compatible slot) pair is built shared (must panic 'duplicate node', also with Extras, through a reused FileRestorer and across two files of one Restorer) and cloned (must print both).",
    note="reflection sees all state because dst nodes have only exported fields", ref="DESIGN.md §4 C06"),
  "C08": dict(level="model_checking", tech="choice-tree exploration of import-bearing templates x resolver pairs on a typed in-memory world",
-   text="Every canonical variant (<=2 insertions, including around the dot of qualified identifiers) of 17 import-bearing templates (cgo included) is decorated with goast/gotypes resolvers and restored with guess/simple/map/gobuild resolvers: bytes unchanged (also on a second, late print) and path annotations stable under re-decoration; every ordered template pair through one shared goast resolver, restored by fresh Restorers, one Restorer and one FileRestorer.",
+   text="Every canonical variant (<=2 insertions, including around the dot of qualified identifiers) of 18 import-bearing templates (cgo and a package really named v1 included) is decorated with goast/gotypes resolvers and restored with guess/simple/map/gobuild resolvers: bytes unchanged (also on a second, late print) and path annotations stable under re-decoration; every ordered template pair through one shared goast resolver, restored by fresh Restorers, one Restorer and one FileRestorer.",
    note="only resolver pairs that name every package correctly are in the quantifier; inputs whose plain round trip is not byte-exact are left to C01", ref="DESIGN.md §4 C08"),
  "C11": dict(level="model_checking", tech="exhaustive enumeration of corpus variants x resolver, map laws checked by reflection against ast.Inspect",
    text="For every corpus file and every <=1-insertion variant, with and without a resolver (import-bearing files also with the types-based resolver on parses with and without object resolution), and every non-canonical file as written, Decorator.Map and Restorer.Map are total, typed, in-tree, mutually inverse (only selectors on package names may collapse) and commute with every parent/child edge; also for file pairs through one Restorer, for restores that must change the import declarations, and for the package entry point.",
@@ -26,13 +26,13 @@ CHECKS = {
    text="Every restored ast (parsed variants incl. non-canonical files, every single decoration at every point, filled decorations, list edits, Extras on/off, sequences of 2-3 files in one FileSet with fresh or reused FileRestorer, import-managed restores with imports kept / recreated / renamed / added) has all positions inside its one file, disjoint files, strictly increasing lines, sorted comments, every node's range inside its parent's, and the same position order (including coincidences) as a fresh parse of its printed text.",
    note="comment-vs-token order is only required for decorations the decorator placed itself; printed with go/printer using gofmt settings", ref="DESIGN.md §4 C12"),
  "C13": dict(level="model_checking", tech="exhaustive enumeration of pruning predicates per tree; reference traversal by reflection and go/ast.Inspect twin",
-   text="For every corpus tree (canonical and non-canonical): full traversal, pruning at each single node (thorough: each pair), pruning by each node type, removal of each optional child and of all at once, traversal rooted at every inner node, the callback leaving by panic at every call, a visitor-per-subtree Walk, and a 3-file Package agree with the reflection-derived traversal and with go/ast.Inspect of the original ast.",
+   text="For every corpus tree (canonical, non-canonical and syntactically broken sources with Bad nodes): full traversal, pruning at each single node (thorough: each pair), pruning by each node type, removal of each optional child and of all at once, traversal rooted at every inner node, the callback leaving by panic at every call, a visitor-per-subtree Walk, and a 3-file Package agree with the reflection-derived traversal and with go/ast.Inspect of the original ast.",
    note="go/ast of this toolchain is the reference order", ref="DESIGN.md §4 C13"),
  "C15": dict(level="model_checking", tech="exhaustive enumeration of truncations, byte edits, token edits of the corpus and of all short lexeme strings; panic oracle",
-   text="No prefix, suffix, single-byte insertion/substitution (20-byte alphabet), token deletion/duplication/swap, pair of token deletions of any corpus file, nor any string of <=5 lexemes over a 20-lexeme alphabet makes Parse/ParseFile (4 modes)/ParseDir (plain and through a Decorator with goast)/Fprint panic.",
+   text="No prefix, suffix, single-byte insertion/substitution (20-byte alphabet), token deletion/duplication/swap, pair of token deletions of any corpus file, nor any string of <=5 lexemes over a 20-lexeme alphabet (nor any prefix or suffix of the CRLF version of a corpus file) makes Parse/ParseFile (4 modes)/ParseDir (plain and through a Decorator with goast)/Fprint panic.",
    note="a worker crash (fatal error) is itself reported as a violation", ref="DESIGN.md §4 C15"),
  "C19": dict(level="model_checking", tech="explicit-state BFS over operation histories against a []string reference model",
-   text="All histories of Append/Prepend/Replace/Clear with 6 argument shapes from 7 initial lists (nil, empty, spare capacity, and four lists produced by the decorator and by Clone) to depth 7 (quick) / 10 (thorough): All() equals the model, caller slices are never modified or retained, earlier All() results keep their contents, sibling lists of the same tree are untouched, and the rendered comments (at every decoration point of a file with many optional parts absent, and on a path-carrying identifier) equal All().",
+   text="All histories of Append/Prepend/Replace/Clear with 6 argument shapes from 7 initial lists (nil, empty, spare capacity, and four lists produced by the decorator and by Clone) to depth 7 (quick) / 10 (thorough): All() equals the model, caller slices are never modified or retained, earlier All() results keep their contents, sibling lists of the same tree are untouched, and the rendered comments (at every decoration point of a file with many optional parts absent, on a path-carrying identifier, and at an import spec of a block that receives a new import, without the list being rewritten) equal All().",
    note="states merged by (relabelled contents, spare capacity): the methods never inspect string values", ref="DESIGN.md §4 C19"),
 }
 
@@ -44,32 +44,32 @@ CHECKS.update({
    text="For each of the 70 documented examples every subset of <=2 points (thorough: all subsets) x {block, line, newline} placed directly on the node prints where the documentation shows it (block) / exactly once with unchanged tokens (line, newline); for every node instance of the corpus (and hand-built variants with token-less flags inverted) every point singly, with two comments, all points of the node and all points of all nodes together obey: exactly once, Start before the first token, every other point after it (unless the part it is named for is absent), End after the last (before the next separately emitted token), points in order; every print repeated late, early and through a reused FileRestorer; Extras/clone mode; helper and accessor laws for every node type.",
    note="the documentation is the snapshot of gendst/data/positions.go; ',' and ';' are ignored when locating comments", ref="DESIGN.md §4 C04"),
  "C07": dict(level="model_checking", tech="exhaustive enumeration of import configurations; independent import-table oracle on the re-parsed output plus go/types",
-   text="Every configuration of (used-path set, 12 existing import shapes, one or two simultaneous alias overrides, resolver map, local path, Restorer built by constructor or through its fields, File.Imports stale or not, an earlier file restored by the same Restorer) over a 5-path universe is restored with import management and judged by an oracle that does not share code with updateImports: reference binding, exact import set, distinct names, alias preference, order/comments when nothing is added, type-checks.",
+   text="Every configuration of (used-path set, 13 existing import shapes, one or two simultaneous alias overrides, resolver map, local path, Restorer built by constructor or through its fields, File.Imports stale or not, an earlier file restored by the same Restorer) over a 5-path universe is restored with import management and judged by an oracle that does not share code with updateImports: reference binding, exact import set, distinct names, alias preference, order/comments/group separation when nothing is added, type-checks.",
    note="references are identified by package-specific names (Fi/Ti/Vi); gofmt's own import sorting is accounted for when judging order", ref="DESIGN.md §4 C07"),
  "C09": dict(level="model_checking", tech="exhaustive enumeration of generated type-correct programs; oracle computed from go/types",
-   text="For 5 dependency paths (plain, dotted, vendored, nested-vendored, root vendor) x 3 import styles x a 28-role catalogue (singly and in ordered pairs) x shadowing modes x 3 locations of the local package, every identifier's path from the types-based resolver equals the classification computed from go/types — through DecorateFile, DecorateNode on every declaration alone and on a package node, NewDecoratorFromPackage and a Decorator configured through its fields; the syntax-based resolver agrees or errors where it must, also when asked again.",
+   text="For 5 dependency paths (plain, dotted, vendored, nested-vendored, root vendor) x 3 import styles x a 28-role catalogue (singly and in ordered pairs) x shadowing modes x 3 locations of the local package x with/without two blank imports, every identifier's path from the types-based resolver equals the classification computed from go/types — through DecorateFile, DecorateNode on every declaration alone and on a package node, NewDecoratorFromPackage and a Decorator configured through its fields; the syntax-based resolver agrees or errors where it must, also when asked again.",
    note="only files that type-check are in the quantifier", ref="DESIGN.md §4 C09"),
  "C10": dict(level="model_checking", tech="exhaustive enumeration of (source styles, target styles, item, used set, move history) on typed worlds; go/types acceptance oracle",
-   text="Every combination of source import styles, target import styles (absent/plain/alias/dot/alias equal to another package's name/blank; optionally dot-importing a package with clashing names), moved item (function, function using a source-local function, variable, statement; references in call, type, value, map-key, array-key, type-assertion and generic-instantiation positions), dependency subset and history (single, chain, two items, back, clone, reused FileRestorer, resting in the referenced package) yields a target that type-checks with every moved reference denoting the same package-level object.",
+   text="Every combination of source import styles, target import styles (absent/plain/alias/dot/alias equal to another package's name/blank; optionally dot-importing a package with clashing names), moved item (function, function using a source-local function, variable, statement; references in call, type, value, map-key, array-key, type-assertion and generic-instantiation positions), dependency subset, decoration of the whole file or of the declaration alone, and history (single, chain, two items, back, clone, reused FileRestorer, resting in the referenced package) yields a target that type-checks with every moved reference denoting the same package-level object.",
    note="type-incorrect source/target files are outside the quantifier (counted)", ref="DESIGN.md §4 C10"),
  "C14": dict(level="model_checking", tech="choice-tree exploration of cursor scripts driving dstutil.Apply and x/tools astutil.Apply on twin trees",
    text="For 15 sources covering every list field plus a 3-file package and three non-file roots, every 1-site script over 22 actions and every 2-site script over the 6 basic actions (thorough: 2 sites x 22, 3 sites x 6) produces identical callback logs, panics and final trees in dstutil.Apply and astutil.Apply, and Parent/Name/Index locate Node at every callback.",
    note="astutil v0.1.12 is the reference; its Doc/Comment callbacks and nil TypeParams callbacks are normalised away", ref="DESIGN.md §4 C14"),
  "C17": dict(level="fault_enumeration", tech="fault-position enumeration with the choice-tree explorer (a failing resolver call is a deviation), histories of up to three (thorough four) failures then success",
-   text="For every import-bearing template (forward references included) and 10 entry configurations (DecorateFile with three resolver arrangements, Decorator.Parse on valid and on syntactically broken source, Decorator.ParseDir on a two-package directory, four restore configurations), every position of the resolver call sequence is failed in histories of up to three (thorough: four) failures before the retry: error wraps the injected one, no panic, no output, no tree, input unchanged, final retry equals the failure-free result.",
+   text="For every import-bearing template (forward references included) and 11 entry configurations (DecorateFile with three resolver arrangements, Decorator.Parse on valid and on syntactically broken source, Decorator.ParseDir on a two-package directory, Package.SaveWithResolver on a real file, four restore configurations), every position of the resolver call sequence is failed in histories of up to three (thorough: four) failures before the retry: error wraps the injected one, no panic, no output, no tree, input unchanged, final retry equals the failure-free result.",
    note="map orders that decide which path is resolved k-th are left to C16", ref="DESIGN.md §4 C17"),
  "C18": dict(level="model_checking", tech="exhaustive enumeration of object-rich sources and file subsets; graph-isomorphism oracle by reflection and differential against go/ast.NewPackage",
-   text="For 15 object-rich sources and the whole corpus the decorator's and the Extras-restorer's object/scope/node maps are graph isomorphisms, also across files decorated one at a time and for isolated declarations; for every subset of <=4 files of a 10-file pool x importer x universe, dst.NewPackage agrees with go/ast.NewPackage on scope, errors, remaining unresolved names and resolutions.",
+   text="For 15 object-rich sources and the whole corpus the decorator's and the Extras-restorer's object/scope/node maps are graph isomorphisms, also across files decorated one at a time and for isolated declarations; for every subset of <=4 files of an 11-file pool (raw-string and escaped import paths included) x importer x universe, dst.NewPackage agrees with go/ast.NewPackage on scope, errors, remaining unresolved names and resolutions.",
    note="for names declared twice only the name (not the surviving kind) is compared, since file order is a map order on both sides", ref="DESIGN.md §4 C18"),
  "C20": dict(level="fault_enumeration", tech="exhaustive enumeration of package shapes and edit assignments on a real temporary directory, crossed with every failing resolver call (choice tree)",
-   text="For packages of 1-3 files (8 sources incl. dot-import and leading line directive) in 1-2 directories next to unrelated files, every edit assignment and every single resolver failure: SaveWithResolver creates/removes nothing, writes exactly the import-managed print of each file, leaves unedited files byte-identical and, on failure, returns the error and leaves the failing and all later files untouched.",
+   text="For packages of 1-3 files (8 sources incl. dot-import and leading line directive) in 1-2 directories next to unrelated files, every edit assignment and every single resolver failure: SaveWithResolver creates/removes nothing, writes exactly the import-managed print of each file, leaves unedited files byte-identical and, on failure, returns the error and leaves the failing and all later files untouched; one history through Package.Save and its default resolver (save, unresolvable dependency, failing saves, dependency restored, save).",
    note="decorator.Load (go/packages) is not exercised; packages are hand-built with the fields Load fills", ref="DESIGN.md §4 C20"),
 })
 
 
 CHECKS.update({
  "C16": dict(level="model_checking", tech="stateless model checking under a controlled scheduler (preemption-bounded, all interleavings at hooked operations) with a vector-clock happens-before race detector; explorer-controlled map iteration orders; free-running go -race pass as supplement",
-   text="On sources instrumented at check time (sync shims, hooked package-level variables and resolver state, go statements as controlled threads, method calls on shared FileSets as scheduling points, package-level state reset before every execution), 2 (quick) / 3 (thorough, base scenarios) goroutines decorating and restoring different files in 8 sharing scenarios (shared goast resolver, vendored paths, per-thread caching resolver, package-level helpers) are run through every interleaving with <=3 preemptions: no unordered conflicting access, no deadlock, no panic, results equal the sequential ones; 11 sequential scenarios are run under every single (pair of) non-default map iteration order with identical output; the same bodies run free under the Go race detector.",
+   text="On sources instrumented at check time (sync shims, hooked package-level variables and resolver state, go statements as controlled threads, method calls on shared FileSets as scheduling points, package-level state reset before every execution), 2 (quick) / 3 (thorough, base scenarios) goroutines decorating and restoring different files in 8 sharing scenarios (shared goast resolver, vendored paths, per-thread caching resolver, package-level helpers) are run through every interleaving with <=3 preemptions: no unordered conflicting access, no deadlock, no panic, results equal the sequential ones; 12 sequential scenarios are run under every single (pair of) non-default map iteration order with identical output; the same bodies run free under the Go race detector.",
    note="scheduling points are the hooked operations only (sync primitives, package-level variables, resolver state); reads of locations never written are not scheduling points (discovery pass, re-checked at run time); other memory is covered by the -race pass only", ref="DESIGN.md §3.3, §4 C16"),
 })
 
